@@ -264,3 +264,18 @@ Proof.
   destruct sa as [| |u], sb as [| |u']; cbn [selrel] in Rs; try contradiction; try reflexivity.
   rewrite (hv_rel H cs cs h h' look Hm S fuel [m] _ _ Rs). reflexivity.
 Qed.
+
+(* non-vacuity: a two-level dict whose items are inserted in another order at both levels *)
+Example vperm_example :
+  vperm (VDict [([97]%N, VDict [([120]%N, VInt 1); ([121]%N, VInt 2)]); ([98]%N, VList [VInt 3])])
+        (VDict [([98]%N, VList [VInt 3]); ([97]%N, VDict [([121]%N, VInt 2); ([120]%N, VInt 1)])]).
+Proof.
+  apply (vp_dict _ [([97]%N, VDict [([121]%N, VInt 2); ([120]%N, VInt 1)]); ([98]%N, VList [VInt 3])]).
+  - constructor; [split; [reflexivity|]|constructor; [split; [reflexivity|apply vp_refl]|constructor]].
+    apply (vp_dict _ [([120]%N, VInt 1); ([121]%N, VInt 2)]).
+    + constructor; [split; [reflexivity|apply vp_refl]|constructor; [split; [reflexivity|apply vp_refl]|constructor]].
+    + apply perm_swap.
+    + cbn. constructor; [intros [E|[]]; discriminate E|constructor; [intros []|constructor]].
+  - apply perm_swap.
+  - cbn. constructor; [intros [E|[]]; discriminate E|constructor; [intros []|constructor]].
+Qed.
